@@ -10,6 +10,7 @@ on an object that never saw it.  (Sections are added as clusters land.)
 import TraitsVerif.Lemmas.SeqFault
 import TraitsVerif.Props.C04
 import TraitsVerif.Props.C12
+import TraitsVerif.Props.C17
 namespace TraitsVerif.Props.C19
 open TraitsVerif TraitsVerif.Py TraitsVerif.Model
 variable {α : Type}
@@ -134,6 +135,18 @@ theorem C19_getter_raises {Val : Type} (P : Model.Property.Env Val) (s : Model.P
         (Model.Property.readProp P (Model.Property.readProp P s).2).1 = .ok v :=
   have h := C12.C12_getter_raises P s e hmiss hr
   ⟨by rw [h.1], h.2.1, fun v hv => (h.2.2 v hv).1⟩
+
+/-! ### Adapter factory raising -/
+
+/-- An exception that comes out of the adaptation search is exactly one a
+factory raised (it reaches the caller unchanged); the offer registry is an
+immutable parameter of the search, so nothing is registered or lost by a
+failing adaptation. -/
+theorem C19_factory_raises {α : Type} (cfg : Model.Adapt.Cfg) (f : Model.Adapt.Factory α)
+    (adaptee : α) (target fuel : Nat) (st : Model.Adapt.St) (e : Exc)
+    (h : (Model.Adapt.adaptLoop cfg f adaptee target fuel st).1 = .raised e) :
+    ∃ k o a', f k o a' = .raise e :=
+  Lemmas.Adapt.adaptLoop_raised cfg f adaptee target fuel st e h
 
 /-! ### Non-vacuity -/
 
